@@ -1,6 +1,7 @@
 import TsVerif.Common.IO
 import TsVerif.C19.Judge
 import TsVerif.C19.Timed
+import TsVerif.C19.SrcUpdate
 /-!
 Driver for C19.
 
@@ -224,9 +225,75 @@ def nontrivial (kv : List (String × String)) : Bool :=
   (n ≥ 2 && look kv "lib" != "fresh") || ((look kv "steps").splitOn "crash").length > 1 || look kv "killed" == "1" ||
     look kv "lock" == "1"
 
+/-! `kind=upd` (round 11): histories with a source update while a loader waits for the lock.
+Judge: `Upd.okGen` per loader (a success shows a generation `g` with call ≤ last-check ≤ g ≤ now), the later
+load and the file left behind are of the final generation.  Correspondence: the trace of hook points is
+replayed in the model `TsVerif.C19.Upd` (with the `srcUpdate` step) and must predict every result. -/
+
+def updEvents (n : Nat) (planted : Bool) (trace : List String) : List (Option (Nat × Upd.Act)) :=
+  let pre : List (Option (Nat × Upd.Act)) := if planted then [some (n, .check), some (n, .lock)] else []
+  let (evs, _) := trace.foldl (fun (acc : List (Option (Nat × Upd.Act)) × List Nat) w =>
+    let (evs, checked) := acc
+    if w == "UPDATE" then (evs ++ [none], checked)
+    else if w == "owner:install-old-lib" then (evs ++ [some (n, .compile)], checked)
+    else if w == "owner:unlock" then (evs ++ [some (n, .unlock)], checked)
+    else match w.splitOn ":" with
+      | [p, a] =>
+        let p := natOf' p
+        if a == "check" then
+          if checked.contains p then (evs ++ [some (p, .lockGone)], checked) else (evs ++ [some (p, .check)], p :: checked)
+        else if a == "lock" then (evs ++ [some (p, .lock)], checked)
+        else if a == "compile" then (evs ++ [some (p, .compile)], checked)
+        else if a == "unlock" then (evs ++ [some (p, .unlock)], checked)
+        else if a == "load" then (evs ++ [some (p, .load)], checked)
+        else (evs, checked)
+      | _ => (evs, checked)) (pre, [])
+  evs
+
+def runUpd (id : String) (kv : List (String × String)) : String :=
+  let vers := ((look kv "vers").splitOn ",").map natOf'
+  let srcgen := natOf' (look kv "srcgen")
+  let n := natOf' (look kv "n")
+  let res := (look kv "results").splitOn ";"
+  let cg := ((look kv "checkgen").splitOn ";").map natOf'
+  let cl := ((look kv "callgen").splitOn ";").map natOf'
+  let finalVer := vers.getD (srcgen - 1) 0
+  let bad := (res.zip (cg.zip cl)).findSome? fun (r, c, l) =>
+    if r.startsWith "ok" then
+      if Upd.okGen vers srcgen l c (natOf' (r.drop 2).toString) then none
+      else some s!"FAIL:stale-success-after-source-update:{r}:its-last-check-read-generation-{c}-of-{srcgen}"
+    else if r == "partial" then some "FAIL:partial-observed"
+    else some s!"FAIL:upd-loader-did-not-succeed:{r}"
+  let later := look kv "later"
+  let j := match bad with
+    | some b => b
+    | none =>
+      if look kv "finallib" == "partial" then "FAIL:partial-file"
+      else if later != s!"ok{finalVer}" then s!"FAIL:recovery:{later}"
+      else if look kv "finallib" != s!"v{finalVer}" then s!"FAIL:stale-library-left:{look kv "finallib"}"
+      else if look kv "lockleft" != "0" then "FAIL:orphan-lock"
+      else "ok"
+  -- correspondence: replay in the model with the SourceUpdate step
+  let s0 : Upd.State := { src := 1, lib := none, lock := false, procs := List.replicate (n + 1) ⟨.start, 0, 0⟩ }
+  let evs := updEvents n (look kv "scen" == "planted") ((look kv "trace").splitOn ",")
+  let corr := match Upd.runEv s0 evs with
+    | none => "DIFF:trace-not-enabled-in-model"
+    | some s =>
+      let pred := ";".intercalate ((s.procs.take n).map fun pr => match pr.pc with
+        | .done g => s!"ok{vers.getD (g - 1) 0}"
+        | .failed => "missing"
+        | _ => "dead")
+      let predCheck := ";".intercalate ((s.procs.take n).map fun pr => toString pr.lastCheck)
+      if pred != look kv "results" then s!"DIFF:results:model={pred}"
+      else if predCheck != look kv "checkgen" then s!"DIFF:checkgen:model={predCheck}"
+      else if s.src != srcgen then "DIFF:srcgen" else "ok"
+  let corr := if look kv "problem" != "-" then s!"DIFF:history-diverged:{look kv "problem"}" else corr
+  s!"{id} kind=upd corr={corr} variant=both judge={j} nontrivial=1"
+
 def runCase (id : String) (kv : List (String × String)) (cache : Cache) : String × Cache :=
   -- a case that stalled twice (machine stalled, wall-clock limit hit) carries no verdict
   if look kv "timing" == "1" then (s!"{id} kind={look kv "kind"} corr=skip:timing variant=both judge=inconclusive nontrivial=0", cache) else
+  if look kv "kind" == "upd" then (runUpd id kv, cache) else
   if look kv "kind" == "default" then
     -- the loader's REAL default lock timeout: a later loader against a stale lock, library absent
     let res := look kv "results"
